@@ -236,6 +236,10 @@ func genHistory(r *common.Rand, nops int) histCase {
 }
 
 func main() {
+	if os.Getenv("C18_CHILD") != "" {
+		childMain()
+		return
+	}
 	run = common.Start("C18")
 	defer run.Finish()
 	run.Rule = "H: generated docker config documents (unknown nested keys, big numbers, legacy/malformed/unknown-field auth entries, " +
